@@ -89,15 +89,15 @@ CHECKS = {
                 note="The order of the two TECMP temperature bytes could not be cross-checked and is listed as an assumption in the evidence.",
                 technique="bounded exhaustive enumeration class x field x value against an independent layout table"),
     "C13": dict(level="model_checking", design="4/C13",
-                text="Every builder (CAN/CAN-FD all lengths 0..255 x 4 header variants incl. the RTR/RRS bit set first, LIN all lengths 0..255, Ethernet/analog boundary lengths to 65529, capture-module 5^4 string combinations (empty strings also as null string_views) x vendor lengths and each section alone at 17 boundary lengths, interface stream-id counts x vendor lengths) after each kind of prior state (earlier setData with shorter / longer / same-length data or with the same TOTAL size and moved section boundaries, or an object constructed from a raw image with trailing bytes; each with and without every getter being called between the two builder calls; stand-alone objects and objects held inside a Packet; the LIN builder also with the correct classic / enhanced checksum of the data held before; the builder call under test aborted by the failure of its n-th allocation and repeated; builder objects that were moved from and are used again); checked: getters, preserved header fields, independent wire image incl. NUL termination and even padding, DLC table, own validity check, real Decoder, raw bytes equal to those of a fresh object with the same final content.",
+                text="Every builder (CAN/CAN-FD all lengths 0..255 x 4 header variants incl. the RTR/RRS bit set first, LIN all lengths 0..255, Ethernet/analog boundary lengths to 65529, capture-module 5^4 string combinations (empty strings also as null string_views) x vendor lengths and each section alone at 17 boundary lengths, interface stream-id counts x vendor lengths) after each kind of prior state (earlier setData with shorter / longer / same-length data or with the same TOTAL size and moved section boundaries, or an object constructed from a raw image with trailing bytes; each with and without every getter being called between the two builder calls; stand-alone objects and objects held inside a Packet; the LIN builder also with the correct classic / enhanced checksum of the data held before; the builder call under test aborted by the failure of its n-th allocation and repeated; builder objects that were moved from and are used again; prior contents much longer than the new data; capture-module strings whose content looks like padding or formatting); checked: getters, preserved header fields, independent wire image incl. NUL termination and even padding, DLC table, own validity check, real Decoder, raw bytes equal to those of a fresh object with the same final content.",
                 note="DLC is only constrained for representable lengths.",
                 technique="bounded exhaustive enumeration of builder inputs x prior object contents with independent layout oracle and fresh-object differential"),
     "C14": dict(level="model_checking", design="4/C14",
-                text="All ordered (source, target) pairs of a 31-packet pool (payload-less, zero-length payloads, equal-looking, one member per single-field difference, typed, decoder-produced, decoder-produced and edited in place into a rejected state) x copy/move construction and assignment, self assignments, all two-assignment sequences, all histories of 3 (thorough 4) value operations (copy-assign / move-assign / swap from every member, self assignments, round trip through a copy-constructed temporary) on every target of a 12-member sharp sub-pool and of 2 (3) operations on the whole pool with the target observed and compared after every step, equality laws on all pairs; copy construction / assignment aborted by the failure of its n-th allocation (every n) and repeated; the same for 23 Payload and 10 TECMP::Payload objects; observation through all getters under ASan in forked workers.",
+                text="All ordered (source, target) pairs of a 31-packet pool (payload-less, zero-length payloads, equal-looking, one member per single-field difference, typed, decoder-produced, decoder-produced and edited in place into a rejected state) x copy/move construction and assignment, self assignments, all two-assignment sequences, all histories of 3 (thorough 4) value operations (copy-assign / move-assign / swap from every member, self assignments, round trip through a copy-constructed temporary) on every target of a 12-member sharp sub-pool and of 2 (3) operations on the whole pool with the target observed and compared after every step, equality laws on all pairs, equality through the concrete payload classes incl. analog payloads with NaN / infinities / -0 in each float field; copy construction / assignment aborted by the failure of its n-th allocation (every n) and repeated; the same for 23 Payload and 10 TECMP::Payload objects; observation through all getters under ASan in forked workers.",
                 note="Equality must agree with field-by-field comparison only for non-empty payloads (as the property states).",
                 technique="exhaustive enumeration of object pairs x value operations (2-step histories) on the real classes"),
     "C16": dict(level="model_checking", design="4/C16",
-                text="34-operation alphabet (incl. refresh operations: update with a packet the tracker itself stores) over 3 devices x 2 interfaces x 2 message variants (which move timestamps and uptime / counters in opposite directions; one of them with the header fields a reassembled packet carries; incl. data packets and status messages of other kinds, which must change nothing): unmerged tree of copied real Status objects to depth 4 (quick) / 5 (thorough) and to depth 6 / 8 over a sharp 13-operation sub-alphabet, every prefix judged, plus BFS merged on the full ordered observable state run to its fixpoint (all 109 591 reachable states of the alphabet); after every operation counts, lookups by id and every getter/byte of every stored packet are compared with a latest-message map. The sharp tree also runs with every lookup and getter exercised after EVERY operation of the history; four long histories pass every power of two up to 2^17 updates; update calls aborted by the failure of their n-th allocation (every n) after every history of <= 2 (thorough 3) operations must leave the tracker equal to the map without or with the message, and the repeated update and one more operation are judged.",
+                text="34-operation alphabet (incl. refresh operations: update with a packet the tracker itself stores) over 3 devices x 2 interfaces x 2-3 message variants (capture-module status: payload and header changed - uptime down where the timestamp goes up -, header only, base; interface status: header only; one of them with the header fields a reassembled packet carries; incl. data packets and status messages of other kinds, which must change nothing): unmerged tree of copied real Status objects to depth 4 (quick) / 5 (thorough) and to depth 6 / 8 over a sharp 13-operation sub-alphabet, every prefix judged, plus BFS merged on the full ordered observable state run to its fixpoint (all 109 591 reachable states of the alphabet); after every operation counts, lookups by id and every getter/byte of every stored packet are compared with a latest-message map. The sharp tree also runs with every lookup and getter exercised after EVERY operation of the history; four long histories pass every power of two up to 2^17 updates; update calls aborted by the failure of their n-th allocation (every n) after every history of <= 2 (thorough 3) operations must leave the tracker equal to the map without or with the message, and the repeated update and one more operation are judged.",
                 note="Vector order is not constrained; 'random beyond the bound' is not done (the completed bound is reported).",
                 technique="explicit-state model checking (operation-sequence tree + BFS with state merging) of the real object against a reference model"),
     "C20": dict(level="model_checking", design="4/C20",
@@ -105,7 +105,7 @@ CHECKS = {
                 note="Two fill patterns decide dependence on uninitialised content; valgrind decides definedness on the executed paths only. MSan is unusable here without an instrumented libstdc++.",
                 technique="exhaustive enumeration of a workload list x environment answers for uninitialised memory (differential) + definedness monitor on every output"),
     "C19": dict(level="model_checking", design="4/C19",
-                text="Five thread bodies (encoder, decoder, static TECMP decoder, status tracker, builders/values), each on its own objects and parameterised by a thread-unique value, plus a hand-over pair (a decoder's owner goes on decoding while another thread reads, copies, feeds to its own Status / Encoder and destroys the packets that decoder returned earlier; rebuilt before every execution) and a copy family (each thread works on its own copy of one configured prototype encoder / decoder with an open message / status tracker), a shared-input family (the threads' inputs - const packets never serialised before, const frame buffers - are the same objects), run as real pthreads under a serialising scheduler; scheduling points are inserted by the compiler (sanitizer coverage). Explored exhaustively: all interleavings at API level for all 15 body pairs, all schedules with <= 1 preemption at function-entry level for all pairs and at basic-block level for same-body pairs, <= 2 preemptions for two same-body pairs (thorough: <= 2 for all pairs, <= 1 at basic-block level for all pairs, 3-thread sets). Per schedule: digests equal the solo run (reference digests from a cold child process), ASan clean, and a confinement monitor over every library load/store reports any granule touched by two threads with a write. A separate free-running ThreadSanitizer pass covers what a serialising scheduler hides from a race detector.",
+                text="Five thread bodies (encoder, decoder, static TECMP decoder, status tracker, builders/values), each on its own objects and parameterised by a thread-unique value, plus a hand-over pair (a decoder's owner goes on decoding while another thread reads, copies, feeds to its own Status / Encoder and destroys the packets that decoder returned earlier; rebuilt before every execution) and a copy family (each thread works on its own copy of one configured prototype encoder / decoder with an open message / status tracker), a shared-input family (the threads' inputs - const packets never serialised before, const CMP and TECMP frame buffers - are the same objects), a big-state pair (two decoders each holding 300 reassemblies of 65000 bytes at once; digest oracle), run as real pthreads under a serialising scheduler; scheduling points are inserted by the compiler (sanitizer coverage). Explored exhaustively: all interleavings at API level for all 15 body pairs, all schedules with <= 1 preemption at function-entry level for all pairs and at basic-block level for same-body pairs, <= 2 preemptions for two same-body pairs (thorough: <= 2 for all pairs, <= 1 at basic-block level for all pairs, 3-thread sets). Per schedule: digests equal the solo run (reference digests from a cold child process), ASan clean, and a confinement monitor over every library load/store reports any granule touched by two threads with a write. A separate free-running ThreadSanitizer pass covers what a serialising scheduler hides from a race detector.",
                 note="Preemption inside uninstrumented libstdc++/libc and weak-memory effects are not modelled; k > 2 at function granularity is not explored.",
                 technique="stateless model checking: preemption-bounded exhaustive schedule exploration of the real code under a controlled scheduler, plus free-running TSan pass"),
 }
